@@ -159,11 +159,22 @@ def nest(kind, depth):
         return head + "var v = g(a); if (" + "1 + (v * " * depth + "v" + ")" * depth + " == 0) { b <== a; } else { b <== 0; } }\n"
     if kind == "comment":
         return "pragma circom 2.0.0;\n" + "/* x */ " * depth + "\nfunction f(a) { return a; }\n"
+    # an index expression that is itself an array access, and so on: the work per level must not multiply
+    if kind == "idxnest":
+        return "pragma circom 2.0.0;\nfunction f(x) { var r = " + "x[" * depth + "8" + "]" * depth + "; return r; }\n"
+    if kind == "idxsig":
+        return "pragma circom 2.0.0;\ntemplate T() { signal input in[9]; signal output out; out <-- " + "in[" * depth + "0" + "]" * depth + "; }\n"
+    if kind == "idxupd":
+        return "pragma circom 2.0.0;\nfunction f(x) { var a[9]; a[" + "a[" * depth + "0" + "]" * depth + "] = x; return a[0]; }\n"
+    if kind == "callnest":
+        return "pragma circom 2.0.0;\nfunction g(x) { return x + 1; }\nfunction f(x) { return " + "g(" * depth + "x" + ")" * depth + "; }\n"
+    if kind == "idxcall":
+        return "pragma circom 2.0.0;\nfunction g(x) { return x + 1; }\nfunction f(x) { var a[9]; return " + "a[g(" * depth + "x" + ")]" * depth + "; }\n"
     return ""
 
 
 NEST_KINDS = ["paren", "unary", "sum", "ternary", "block", "if", "else", "while", "index", "array", "tuple", "anon", "stmts", "comment",
-              "rnest", "horner", "rcond"]
+              "rnest", "horner", "rcond", "idxnest", "idxsig", "idxupd", "callnest", "idxcall"]
 MODEST_DEPTH = 100     # the property speaks of inputs of modest size
 
 
